@@ -4,9 +4,11 @@ package dnssvc
 
 import (
 	"context"
+	"log/slog"
 	"time"
 
 	"github.com/AdguardTeam/AdGuardDNS/internal/dnsserver"
+	"github.com/AdguardTeam/AdGuardDNS/internal/dnssvc/internal/initial"
 )
 
 // VerifWrapPreUpstreamMw exposes the real cache / DNSDB wiring of the handler
@@ -25,4 +27,10 @@ func VerifNewContextConstructor(timeout time.Duration) (c dnsserver.ContextConst
 // handlers (rate-limit middleware with the device finder) around h.
 func VerifNewHandlersForServers(c *HandlersConfig, h dnsserver.Handler) (hs Handlers, err error) {
 	return newHandlersForServers(c, h)
+}
+
+// VerifWrapInitial wraps h into the real initial middleware, which answers the
+// DDR and other special-domain queries.
+func VerifWrapInitial(l *slog.Logger, h dnsserver.Handler) (wrapped dnsserver.Handler) {
+	return initial.New(&initial.Config{Logger: l}).Wrap(h)
 }
